@@ -1,9 +1,13 @@
 #!/bin/sh
-# tools/regress_seeds_wt.sh [tier]: every seeded change (seeded/*/meta.json) against the check(s) named in its meta.json, each applied in its own
-# scratch worktree (tools/try_seed_wt.sh), so /repo's working tree is never touched.  Writes seeded/MATRIX.txt.
-tier=${1:-quick}; out=/verif/seeded/MATRIX.txt; : > $out.new
-for d in /verif/seeded/*/; do
+# tools/regress_seeds_wt.sh [tier] [part/of]: every seeded change (seeded/*/meta.json) against the check(s) named in its meta.json, each applied in its
+# own scratch worktree (tools/try_seed_wt.sh), so /repo's working tree is never touched.  Without a part: all seeds, writes seeded/MATRIX.txt.  With
+# "k/n": every n-th seed starting at the k-th, writes seeded/MATRIX.part.k (run the n parts side by side, then `cat seeded/MATRIX.part.* | sort > seeded/MATRIX.txt`).
+tier=${1:-quick}; part=${2:-1/1}; k=${part%/*}; n=${part#*/}
+out=/verif/seeded/MATRIX.txt; [ "$n" != 1 ] && out=/verif/seeded/MATRIX.part.$k
+: > $out.new; i=0
+for d in /verif/seeded/C*/; do
   s=$(basename $d); [ -f $d/meta.json ] || continue
+  i=$((i+1)); [ $(( (i - 1) % n + 1 )) = "$k" ] || continue
   for c in $(python3 -c "import json;print(' '.join(json.load(open('$d/meta.json'))['detected_by']))"); do
     r=$(/verif/tools/try_seed_wt.sh $s $c $tier 2>&1)
     if echo "$r" | grep -q "^VIOLATION property=$c"; then v=detected; elif echo "$r" | grep -q "PATCH DOES NOT APPLY"; then v=PATCH-DOES-NOT-APPLY; elif echo "$r" | grep -q HARNESS; then v=HARNESS-ERROR; else v=MISSED; fi
